@@ -380,5 +380,33 @@ OptProgs(u_) ==
       << SLabel("DEV", SBlock(<< SRet(EProbe(1)) >>)), SRet(EProbe(2)) >>,
       << SLabel("DEV", SBlock(<< SExpr(EConsole(<<EProbe(1)>>)), SExpr(ECallF(<<EDef>>)) >>)), SDebugger, SRet(EDef) >> }
 
+
+(* ------------------------------------------------------------------ *)
+(* keep-names: function/class .name is observable and must survive     *)
+(* identifier minification when keep-names is on (ECMA-262 8.4          *)
+(* NamedEvaluation / SetFunctionName).  Functions are outside JsSem's   *)
+(* fragment, so these few programs are given as source text with the    *)
+(* value the language assigns (the body of function (a, b) { ... }).    *)
+(* ------------------------------------------------------------------ *)
+NameProgs == <<
+  [body |-> "function foo() {} return foo.name;",                         name |-> "foo"],
+  [body |-> "var foo = function() {}; return foo.name;",                  name |-> "foo"],
+  [body |-> "let foo = () => {}; return foo.name;",                       name |-> "foo"],
+  [body |-> "const foo = async () => {}; return foo.name;",               name |-> "foo"],
+  [body |-> "class Foo {} return Foo.name;",                              name |-> "Foo"],
+  [body |-> "const foo = class {}; return foo.name;",                     name |-> "foo"],
+  [body |-> "var foo = function bar() {}; return foo.name;",              name |-> "bar"],
+  [body |-> "var foo = class Bar {}; return foo.name;",                   name |-> "Bar"],
+  [body |-> "function foo() { return foo.name; } return foo();",          name |-> "foo"],
+  [body |-> "var foo; foo = function() {}; return foo.name;",             name |-> "foo"],
+  [body |-> "var foo; foo ||= function() {}; return foo.name;",           name |-> "foo"],
+  [body |-> "var foo; foo ??= () => {}; return foo.name;",                name |-> "foo"],
+  [body |-> "let { foo = function() {} } = {}; return foo.name;",         name |-> "foo"],
+  [body |-> "let [foo = () => {}] = []; return foo.name;",                name |-> "foo"],
+  [body |-> "function* foo() {} return foo.name;",                        name |-> "foo"],
+  [body |-> "function outer(foo = function() {}) { return foo.name; } return outer();", name |-> "foo"],
+  [body |-> "var foo = function() {}, bar = foo; return bar.name;",       name |-> "foo"]
+>>
+
 SkelProgs == IF DoSkel THEN SkIf(0) \cup SkLoop(0) \cup SkSwitch(0) \cup SkTry(0) \cup SkLabel(0) \cup SkDecl(0) \cup SkTypeof(0) \cup SkChain(0) ELSE {}
 =============================================================================
